@@ -117,6 +117,11 @@ func xmlEq(body []byte, v any) bool {
 func c19Serve(preset string, f func(c *rux.Context)) (*httptest.ResponseRecorder, []error, any) {
 	r := rux.New()
 	var errs []error
+	// an earlier handler may already have selected (not committed) another status: the helper's own status wins
+	if strings.HasPrefix(preset, "status500|") {
+		preset = strings.TrimPrefix(preset, "status500|")
+		r.Use(func(c *rux.Context) { c.SetStatus(500) })
+	}
 	r.GET("/x", func(c *rux.Context) {
 		if preset != "" {
 			c.SetHeader("Content-Type", preset)
@@ -161,7 +166,7 @@ func c19Run(c c19Case, st *fw.Stats) []fw.Viol {
 			switch c.Helper {
 			case "Text", "HTML", "JSONBytes", "Blob", "Stream":
 				for _, s := range c19Strings {
-					for _, preset := range []string{"", "x/custom"} {
+					for _, preset := range []string{"", "x/custom", "status500|"} {
 						s, status := s, status
 						ct := map[string]string{"Text": "text/plain; charset=utf-8", "HTML": "text/html; charset=utf-8", "JSONBytes": "application/json; charset=utf-8", "Blob": "app/blob", "Stream": "app/stream"}[c.Helper]
 						w, _, pv := c19Serve(preset, func(ctx *rux.Context) {
@@ -216,7 +221,7 @@ func c19Run(c c19Case, st *fw.Stats) []fw.Viol {
 				}
 			case "JSON", "JSONP", "XML":
 				for _, v := range c19Values() {
-					for _, preset := range []string{"", "x/custom"} {
+					for _, preset := range []string{"", "x/custom", "status500|"} {
 						v, status := v, status
 						_, isX := v.(c19XML)
 						_, isXP := v.(*c19XML)
@@ -224,7 +229,7 @@ func c19Run(c c19Case, st *fw.Stats) []fw.Viol {
 							continue
 						}
 						ct := map[string]string{"JSON": "application/json; charset=utf-8", "JSONP": "application/javascript; charset=utf-8", "XML": "application/xml; charset=utf-8"}[c.Helper]
-						if preset != "" {
+						if preset != "" && preset != "status500|" {
 							ct = preset // the renderers never override a Content-Type that is already set
 						}
 						w, errs, pv := c19Serve(preset, func(ctx *rux.Context) {
@@ -464,7 +469,7 @@ func c19Run(c c19Case, st *fw.Stats) []fw.Viol {
 var c19Spec = fw.Spec[c19Case]{
 	ID:    "C19",
 	Level: "model_checking",
-	Rule: "complete product: 11 context helpers x 8 status codes x value alphabets (7 strings with HTML / unicode / control characters; maps, structs, pointers, byte and int slices, scalars; unencodable chan / func / NaN / Inf / cyclic values) x preset Content-Type absent / present; 11 pkg/render functions x 3 preset Content-Types; render.Auto x ALL Accept lists of <=3 (thorough 4) entries over 10 entries (the five supported MIME strings, foo/bar, */*, q-parameters, empty); " +
+	Rule: "complete product: 11 context helpers x 8 status codes x value alphabets (7 strings with HTML / unicode / control characters; maps, structs, pointers, byte and int slices, scalars; unencodable chan / func / NaN / Inf / cyclic values) x preset Content-Type absent / present x another status already selected by an earlier handler; 11 pkg/render functions x 3 preset Content-Types; render.Auto x ALL Accept lists of <=3 (thorough 4) entries over 10 entries (the five supported MIME strings, foo/bar, */*, q-parameters, empty); " +
 		"oracle: recorded status, documented Content-Type (preset preserved by every pkg/render renderer), body decodes back (JSONP unwrapped), first supported entry wins, encoding failures land in Context.Errors / the returned error; every evaluation is non-trivial except single-entry Accept lists",
 	Assume: []string{"text/html negotiation is the code's documented no-op and is modelled as such", "XML round trips use one struct type; encoding/xml has no cycle detection so cyclic values are not offered to it"},
 	Bounds: func(tier string) map[string]any {
